@@ -179,6 +179,11 @@ class C11(Check):
         if case.get('prelude') and not (mode == 'plain' and 'tee_map' in names):
             prelude_tags(dict(case, prelude=progs.usable_prelude(prog, case['prelude'])), out)
         if snap.err is not None:
+            if isinstance(snap.err, ValueError) and 'truth value of an array' in str(snap.err) and 'npvec' in repr(prog):
+                # (a comparison of values holding the numpy vector state: the user's type error - section 9, items 13 and 21 - which
+                # the model only meets when its own copies of the arrays are compared)
+                out.discarded = 'comparison of numpy arrays has no truth value'
+                return out
             return out.fail('stream-error-where-the-model-expects-items', error=repr(snap.err), emitted=len(snap.out))
         if not snap.done:
             return out.fail('stream-did-not-complete')
